@@ -231,7 +231,7 @@ def selftest(ctx, kind, n, nodes, walk, obs_out):
         raise tlc.MachineryError("binding self-test failed (%s): corrupted expected result accepted" % kind)
     out["corrupted_result_rejected"] = 1
     r = rc.run_sequence(kind, inst, n, ops, corrupt_at=1, corrupt=bad_state)
-    if not (r and r[0] == 1 and r[1]["what"] in ("state", "result")):
+    if not (r and r[0] == 1 and r[1]["what"] == "state"):
         raise tlc.MachineryError("binding self-test failed (%s): corrupted expected state accepted" % kind)
     out["corrupted_state_rejected"] = 1
     return out
